@@ -14,11 +14,11 @@ ck = importlib.util.module_from_spec(_spec)
 _loader.exec_module(ck)
 
 SCENARIOS = {
-    "C17": ["blocking", "timeout", "contended", "in_runtime", "deadletters", "blocking_ask_vs_end", "blocking", "timeout", "contended", "blocking_ask_vs_end", "end_vs_observers", "erased_blocking", "timed_independent"],
+    "C17": ["blocking", "timeout", "contended", "in_runtime", "deadletters", "blocking_ask_vs_end", "blocking", "timeout", "contended", "blocking_ask_vs_end", "end_vs_observers", "erased_blocking", "timed_independent", "timed_blocking_vs_end", "kill_busy_from_thread"],
     "C01": ["async_mt"],
     "C03": ["ask_vs_end", "ask_vs_end", "async_mt", "end_vs_observers"],
     "C02": ["async_mt"],
-    "C06": ["kill_then_drop", "kill_then_drop", "kill_then_drop", "async_mt"],
+    "C06": ["kill_then_drop", "kill_then_drop", "kill_then_drop", "async_mt", "kill_busy_from_thread"],
     "C11": ["ids", "end_vs_observers"],
     "C14": ["dd_mt"],
     "C16": ["erased_blocking"],
@@ -30,7 +30,7 @@ SCENARIOS = {
 # "the actor replies, stops and closes its mailbox before the woken caller runs" needs that)
 RATES = ["0.01", "0.05", "0.2", "0"]
 # which property does a never-returning operation violate, per scenario
-HANG_PROP = {"async_mt": "C03", "ask_vs_end": "C03", "dd_mt": "C14", "erased_blocking": "C16"}
+HANG_PROP = {"async_mt": "C03", "ask_vs_end": "C03", "dd_mt": "C14", "erased_blocking": "C16", "kill_busy_from_thread": "C06"}
 
 def menv():
     e = ck.env()
@@ -90,7 +90,7 @@ def classify(code, out, hang_prop="C17"):
             _, prop, sig, text = l.split(" ", 3)
             v.append((prop, sig, text))
     if "the evaluated program deadlocked" in out:
-        v.append((hang_prop, "hang", "Miri reports that every thread is blocked forever: an operation never returned" + ({"C03": " (an ask on an actor that has ended waits forever)", "C14": " (actors are left waiting on each other: an ask cycle was not detected)", "C16": " (a blocking call through a type-erased handler blocks where the same call on the ActorRef returns)"}.get(hang_prop, " (a blocking call never returned)"))))
+        v.append((hang_prop, "hang", "Miri reports that every thread is blocked forever: an operation never returned" + ({"C03": " (an ask on an actor that has ended waits forever)", "C14": " (actors are left waiting on each other: an ask cycle was not detected)", "C16": " (a blocking call through a type-erased handler blocks where the same call on the ActorRef returns)", "C06": " (kill() did not return while the actor was busy)"}.get(hang_prop, " (a blocking call never returned)"))))
     elif "Undefined Behavior" in out or "Data race detected" in out:
         where = "rsactor" if "/src/actor" in out or "rsactor" in out else "elsewhere"
         if where == "rsactor":
@@ -179,7 +179,7 @@ def m_part(prop, tier, seed):
         n = 32 if tier == "quick" else 480
     if prop == "C06":
         # the kill-then-drop window shows in about 4 % of the executions of its scenario on a tree that has the defect
-        n = 96 if tier == "quick" else 960
+        n = 100 if tier == "quick" else 1000
     if prop in ("C14", "C15"):
         n = 24 if tier == "quick" else 480
     if prop == "C14":
@@ -194,7 +194,7 @@ def m_part(prop, tier, seed):
 
 def run(prop, tier, seed):
     t0 = time.time()
-    n = 104 if tier == "quick" else 2340
+    n = 120 if tier == "quick" else 2400
     res = run_batch("C17", SCENARIOS["C17"], n, seed)
     viol, stats = summarize("C17", res)
     wall = time.time() - t0
